@@ -15,12 +15,21 @@ Ties, re-established on every run:
      glsl/msl PipelineConstants, reflection dump of the caller's module before/after); the
      model's Go float->int conversions are compared with the running toolchain.
 Search = the same runs compared with the extracted SPEC: a disagreement on a concrete
-program is a finding, keyed by the blamed operator/type class (lib/ovrgen.py)."""
+program is a finding, keyed by the blamed operator/type class (lib/ovrgen.py).
+FORM family (lib/ovrforms.py): one tiny program per (IR expression / statement form, operand
+position), an override referenced before and after the form so that the arena rebuild of both
+override passes shifts every handle.  Reference = the SUBSTITUTED program (each override
+replaced by a `const` of the value the spec gives it).  Compared: handle-free canonical
+function bodies of ProcessOverrides(clone) vs the lowered reference (ovrdrive canon.go, by
+reflection over every handle field), the text of every back end on the resolved module vs on
+the reference, SPIR-V summaries, and the text of msl/glsl Compile(PipelineConstants) vs the
+reference; findings are keyed by the IR field / form and operand that differs."""
 import json
 
 import gen
 import nagarun
 import ocamlbuild
+import ovrforms as F
 import ovrgen as G
 import vcheck
 
@@ -131,11 +140,16 @@ class Case:
 
     def files(self):
         p = self.prog
-        return {"program.wgsl": p["src"],
-                "pipeline_constants.json": json.dumps([[k, str(b), repr(G.f64frombits(b))] for k, b in p["vmap"]], indent=1),
-                "case.json": json.dumps({"decls": [enc_decl(d) for d in p["decls"]], "consts": p["vmap"],
-                                         "globals": [{"ty": g["ty"], "init": g["init"]} for g in p["globals"]],
-                                         "wg": p["wg"], "lets": p["lets"]})}
+        cj = {"decls": [enc_decl(d) for d in p["decls"]], "consts": p["vmap"],
+              "globals": [{"ty": g["ty"], "init": g["init"]} for g in p["globals"]], "wg": p["wg"], "lets": p["lets"]}
+        out = {"program.wgsl": p["src"],
+               "pipeline_constants.json": json.dumps([[k, str(b), repr(G.f64frombits(b))] for k, b in p["vmap"]], indent=1)}
+        if p.get("kind") == "form":
+            f = p["form"]
+            cj["form"] = {"name": f["name"], "form": f["form"], "operands": f["operands"], "overrides": f["overrides"], "vals": p["vals"]}
+            out["substituted.wgsl"] = p["subst"]
+        out["case.json"] = json.dumps(cj)
+        return out
 
 
 def model_job(case):
@@ -176,6 +190,11 @@ class Checker:
         self.opcov = set()
         self.distinct = set()
         self.tie_broken = []
+        self.fstats = {"programs": 0, "reference_values_checked": 0, "po_ir_compared": 0, "po_ir_equal": 0, "po_ir_equal_up_to_emits": 0,
+                       "po_ir_differs": {}, "text_compared": {}, "text_equal": {}, "backend_rejects_reference_too": {},
+                       "differences_explained_by_ir_difference": 0, "differences_explained_by_truncated_emit": 0,
+                       "spv_compared": 0, "spv_equal": 0, "spv_equal_up_to_null_override_constants": 0, "findings": {}}
+        self.fforms = set()
 
     # -- reporting
     def tie_break(self, case, what, detail):
@@ -429,7 +448,7 @@ class Checker:
         # original module untouched?  model: only the leaked location classes can change
         sc = low.get("stmt_classes", {})
         present = {"nested-block": sc.get("nested", 0) > 0, "call-arguments": sc.get("call_args", 0) > 0,
-                   "statement-pointer": sc.get("ptr", 0) > 0}
+                   "statement-pointer": sc.get("ptr", 0) > 0, "expression-pointer": sc.get("expr_ptr", 0) > 0}
         for path in ("po", "glsl", "msl"):
             r = go.get(path, {})
             if r.get("orig_unchanged") is False:
@@ -485,6 +504,8 @@ class Checker:
                         return
         # ================ spec vs implementation
         self.spec_compare(case, impl_vals, impl_err, msl_vals)
+        if p.get("kind") == "form":
+            self.form_compare(case, impl_err)
 
     def spec_compare(self, case, impl_vals, impl_err, msl_vals):
         p, go, mo = case.prog, case.go, case.model
@@ -616,6 +637,8 @@ class Checker:
             # the other back ends must accept the resolved module
             be = go["po"].get("backends", {})
             for b in ("glsl", "msl", "hlsl", "spv"):
+                if p.get("kind") == "form":
+                    break                                  # compared with the back end's verdict on the reference (form_compare)
                 if b + "_err" in be:
                     self.finding(case, "po-backend-error:%s:%s" % (b, err_class(be[b + "_err"])),
                                  "%s rejects the module ProcessOverrides produced: %s" % (b, be[b + "_err"]))
@@ -660,6 +683,161 @@ class Checker:
                 self.finding(case, key, "override %s: WGSL value %s, msl.Compile(PipelineConstants) emitted `%s`" % (d["name"], lit_str(s[1]), msl_vals[i]))
                 break
 
+
+    # -- the form family: every override path against the substituted program
+    def form_finding(self, case, key, what):
+        self.fstats["findings"][key] = self.fstats["findings"].get(key, 0) + 1
+        self.finding(case, key, what + "\n--- substituted reference ---\n" + case.prog["subst"])
+
+    def form_compare(self, case, impl_err):
+        p, go, mo = case.prog, case.go, case.model
+        f = p["form"]
+        st = self.fstats
+        st["programs"] += 1
+        self.fforms.add(f["form"])
+        name = f["form"]
+        sub = go.get("subst")
+        if sub is None or "err" in sub:
+            self.tie_break(case, "form-reference-rejected", "the substituted program of form %s is rejected although the program with overrides "
+                           "is accepted: %s" % (f["name"], (sub or {}).get("err")))
+            return
+        # the values substituted by the generator are the values the SPEC gives the overrides
+        se = mo["spec_each"]
+        for i, d in enumerate(p["decls"]):
+            want = form_literal(d["real_ty"], p["vals"][d["name"]])
+            if i >= len(se) or se[i][0] != "ok" or G.norm_lit(se[i][1]) != want:
+                self.tie_break(case, "form-reference-value", "override %s: the reference program substitutes %s, the specification says %s" % (
+                    d["name"], want, se[i] if i < len(se) else None))
+                return
+        st["reference_values_checked"] += len(p["decls"])
+        po = go.get("po", {})
+        if impl_err or "panic" in po:
+            self.form_finding(case, "form:po-error:" + name, "ProcessOverrides fails on form %s although every override has a value: %s" % (
+                f["name"], po.get("err") or po.get("panic")))
+            return
+        ovr = f["overrides"]
+        sb, pb = sub.get("backends", {}), po.get("backends", {})
+        cv = sub.get("canon_vs_po")
+        ir_differs, emit_differs = False, False
+        if cv is None:
+            self.tie_break(case, "form-no-canon", "ovrdrive returned no canonical comparison for form %s" % f["name"])
+            return
+        st["po_ir_compared"] += 1
+        if "diff_noemit" in cv:
+            ir_differs = True
+            path, desc = cv["diff_noemit"]
+            field = short_path(path)
+            st["po_ir_differs"][field] = st["po_ir_differs"].get(field, 0) + 1
+            self.form_finding(case, "form:po-ir:" + field,
+                              "form %s: the function bodies ProcessOverrides produced differ from the lowered substituted program at %s "
+                              "(reference vs resolved): %s" % (f["name"], path, desc))
+        elif "diff" in cv:
+            emit_differs = True
+            st["po_ir_equal_up_to_emits"] += 1
+            if cv.get("unemitted", 0) > cv.get("unemitted_ref", 0):
+                self.form_finding(case, "form:po-ir:last-emit-truncated",
+                                  "form %s: after ProcessOverrides %d expression(s) at the end of a function's arena are covered by no Emit "
+                                  "statement (remapBlockHandles leaves Range.End == len(old arena) unmapped although the arena grew): "
+                                  "back ends evaluate them lazily at their use, after intervening stores; first difference at %s: %s" % (
+                                      f["name"], cv["unemitted"] - cv.get("unemitted_ref", 0), cv["diff"][0], cv["diff"][1]))
+            else:
+                self.form_finding(case, "form:po-ir:emit:" + name, "form %s: Emit statements after ProcessOverrides differ from the "
+                                  "substituted program at %s: %s" % (f["name"], cv["diff"][0], cv["diff"][1]))
+        else:
+            st["po_ir_equal"] += 1
+
+        def count(d, k):
+            d[k] = d.get(k, 0) + 1
+
+        def compare_text(tag, ref, got, via_po):
+            """tag: po-glsl | po-hlsl | po-msl | msl-pc | glsl-pc"""
+            count(st["text_compared"], tag)
+            if ref == got:
+                count(st["text_equal"], tag)
+                return
+            a, g = F.norm_text(ref, ovr), F.norm_text(got, ovr)
+            if a == g:
+                count(st["text_equal"], tag)
+                return
+            if via_po and ir_differs:
+                st["differences_explained_by_ir_difference"] += 1
+                return
+            if via_po and emit_differs:
+                st["differences_explained_by_truncated_emit"] += 1
+                self.form_finding(case, "form:po-ir:last-emit-truncated:behaviour",
+                                  "form %s: %s text of the module ProcessOverrides produced differs from the text of the substituted program "
+                                  "where an expression lost its Emit:\n%s" % (f["name"], tag, F.text_diff(a, g)))
+                return
+            lost = F.lost_tokens(a, g, f["operands"])
+            pos = ",".join("operand%d(%s)" % (f["operands"].index(t), t) for t in lost) or "shape"
+            self.form_finding(case, "form:%s:%s:%s" % (tag, name, pos),
+                              "form %s: %s output differs from the output for the substituted program%s:\n%s" % (
+                                  f["name"], tag, " (operand %s lost)" % lost if lost else "", F.text_diff(a, g)))
+        for b in ("glsl", "hlsl", "msl"):
+            ref_err, got_err = b + "_err" in sb, b + "_err" in pb
+            if ref_err and got_err:
+                count(st["backend_rejects_reference_too"], b)
+                continue
+            if ref_err != got_err or b not in sb or b not in pb:
+                if ir_differs:
+                    st["differences_explained_by_ir_difference"] += 1
+                else:
+                    self.form_finding(case, "form:po-%s-error:%s" % (b, name), "form %s: %s on the resolved module: %s; on the substituted program: %s" % (
+                        f["name"], b, pb.get(b + "_err", "ok"), sb.get(b + "_err", "ok")))
+                continue
+            compare_text("po-" + b, sb[b], pb[b], True)
+        # SPIR-V: id- and order-independent summary
+        if "spv_err" in sb and "spv_err" in pb:
+            count(st["backend_rejects_reference_too"], "spv")
+        elif ("spv_err" in sb) != ("spv_err" in pb) or "spv" not in sb or "spv" not in pb:
+            if ir_differs:
+                st["differences_explained_by_ir_difference"] += 1
+            else:
+                self.form_finding(case, "form:po-spv-error:" + name, "form %s: SPIR-V on the resolved module: %s; on the substituted program: %s" % (
+                    f["name"], pb.get("spv_err", "ok"), sb.get("spv_err", "ok")))
+        else:
+            st["spv_compared"] += 1
+            x, y = F.spv_summary(sb["spv"]), F.spv_summary(pb["spv"])
+            if x == y:
+                st["spv_equal"] += 1
+            else:
+                only_ref, only_got = multiset_diff(x["constants"], y["constants"])
+                # (SPIR-V constants are deduplicated: a resolved override may share its id with an equal literal)
+                nulls = (x["functions"] == y["functions"] and x["modes"] == y["modes"] and only_got
+                         and all(c.startswith("ConstantNull ") for c in only_got)
+                         and all(c.split()[0] in ("Constant", "ConstantTrue", "ConstantFalse") for c in only_ref)
+                         and set(c.split()[1] for c in only_ref) <= set(c.split()[1] for c in only_got))
+                if nulls:
+                    st["spv_equal_up_to_null_override_constants"] += 1
+                    self.form_finding(case, "form:po-spv:override-constant-null",
+                                      "form %s: in the SPIR-V generated from the module ProcessOverrides produced the resolved override(s) are "
+                                      "OpConstantNull (the constants ProcessOverrides appends carry only Init, the SPIR-V back end emits "
+                                      "OpConstantNull for a constant without Value): reference has %s, resolved module has %s" % (
+                                          f["name"], only_ref, only_got))
+                elif ir_differs:
+                    st["differences_explained_by_ir_difference"] += 1
+                else:
+                    self.form_finding(case, "form:po-spv:" + name, "form %s: SPIR-V of the resolved module differs from the SPIR-V of the substituted "
+                                      "program: constants %s vs %s; function opcode multisets equal: %s" % (
+                                          f["name"], only_ref, only_got, x["functions"] == y["functions"]))
+        # msl / glsl Compile(PipelineConstants) against the reference
+        for b in ("msl", "glsl"):
+            r = go.get(b, {})
+            if "panic" in r:
+                continue                                   # reported by check_case
+            ref_err, got_err = b + "_err" in sb, "err" in r
+            if ref_err and got_err:
+                count(st["backend_rejects_reference_too"], b + "-pc")
+                continue
+            if ref_err != got_err or "text" not in r:
+                if b == "glsl" and ir_differs:
+                    st["differences_explained_by_ir_difference"] += 1
+                else:
+                    self.form_finding(case, "form:%s-pc-error:%s" % (b, name), "form %s: %s.Compile(PipelineConstants): %s; on the substituted program: %s" % (
+                        f["name"], b, r.get("err", "ok"), sb.get(b + "_err", "ok")))
+                continue
+            compare_text(b + "-pc", sb[b], r["text"], b == "glsl")
+
     def sample(self, case):
         if len(self.ctx.cov["samples"]) < 4 and case.prog["vmap"] and len(case.prog["decls"]) > 1:
             self.ctx.sample({"program": case.prog["src"][:300], "constants": [(k, G.f64frombits(b)) for k, b in case.prog["vmap"]],
@@ -688,6 +866,28 @@ def msl_value(lit, declared):
         v = b - (1 << 32) if (t == G.I32 and b >= (1 << 31)) else b
         return G.norm_lit([G.F32, G.f32bits_of_float(float(v))])
     return None
+
+
+def form_literal(t, v):
+    """[ty, bits] of a value of the form family's value maps (all exactly representable)"""
+    if t == G.BOOL:
+        return [G.BOOL, 1 if v else 0]
+    if t == G.F32:
+        return G.norm_lit([G.F32, G.f32bits_of_float(float(v))])
+    return [t, int(v) & 0xFFFFFFFF]
+
+
+def short_path(path):
+    """last two `Type.Field` steps of a canonical-form path: names the operand that differs"""
+    parts = [x for x in path.split("/") if x and not x.startswith(".functions") and not x.startswith("Function.")]
+    parts = [x.replace("[len]", "") for x in parts]
+    return "/".join(parts[-2:]) if parts else path
+
+
+def multiset_diff(a, b):
+    import collections
+    ca, cb = collections.Counter(a), collections.Counter(b)
+    return sorted((ca - cb).elements()), sorted((cb - ca).elements())
 
 
 def lit_str(l):
@@ -725,8 +925,10 @@ def orig_class(path):
     import re
     if re.search(r"Stmt(If|Loop|Switch|Block)\.", path) or "SwitchCase.Body" in path:
         return "nested-block"
-    if re.search(r"Stmt\w+\.(Value|Result|BreakIf|ArrayIndex)$", path) or "StmtReturn.Value" in path:
+    if re.search(r"Stmt\w+\.(Value|Result|BreakIf|ArrayIndex)$", path) or "StmtReturn.Value" in path or path.endswith("AtomicExchange.Compare"):
         return "statement-pointer"
+    if re.search(r"Function\.Expressions/Expression\.Kind/(ExprImage\w+\.(ArrayIndex|Offset|DepthRef|Level|Sample)|ExprImageQuery\.Query/ImageQuerySize\.Level)$", path):
+        return "expression-pointer"
     return None
 
 
@@ -817,8 +1019,17 @@ def run(ctx):
             cases.append(c)
         for pr in G.matrix_programs(full=ctx.thorough):
             cases.append(Case(len(cases), pr))
-    jobs = [{"id": c.id, "src": c.prog["src"], "data": {"consts": [[k, str(b)] for k, b in c.prog["vmap"]],
-                                                         "paths": ["po", "backends", "glsl", "msl"]}} for c in cases]
+        for f in F.forms(full=ctx.thorough):
+            for tag, vmap, vals in F.value_maps(f["overrides"]):
+                if tag in f["tags"]:
+                    cases.append(Case(len(cases), form_prog(f, tag, vmap, vals)))
+    jobs = []
+    for c in cases:
+        data = {"consts": [[k, str(b)] for k, b in c.prog["vmap"]], "paths": ["po", "backends", "glsl", "msl"]}
+        if c.prog.get("kind") == "form":
+            data["paths"].append("canon")
+            data["subst"] = c.prog["subst"]
+        jobs.append({"id": c.id, "src": c.prog["src"], "data": data})
     lap("generate")
     res = nagarun.parallel_batches(tools["ovrdrive"], "resolve", jobs, per_job_timeout=20.0, chunk=64)
     lap("naga")
@@ -837,13 +1048,20 @@ def run(ctx):
     st["goconv_values"] = nconv
     st["operator_type_classes_exercised"] = sorted(ck.opcov)
     ctx.cov["overrides"] = st
+    fs = ck.fstats
+    fs["distinct_forms"] = len(ck.fforms)
+    fs["expression_forms"] = len(F.E)
+    fs["statement_forms"] = len(F.S)
+    ctx.cov["form_family"] = fs
     ctx.cov["evaluations"] = st["cases"] + nconv + st["blame_queries"]
     ctx.cov["distinct_nontrivial"] = len(ck.distinct)
     ctx.cov["traces_validated_against_impl"] = st["tie_compared"]
     ctx.cov["rule"] = ("case = generated WGSL module (1-6 overrides of bool/i32/u32/f32 with optional @id, initialisers over literals/consts/"
                        "earlier overrides with every unary and binary operator; derived var<private> initialisers, @workgroup_size arguments, "
                        "function-level lets; nested-block/return/call shapes) x value map (absent, by id, by name, both, NaN, inf, huge, "
-                       "fractional, negative, unknown keys); distinct = distinct (declarations, map) pairs compared with the spec; "
+                       "fractional, negative, unknown keys); form family = one program per IR expression / statement form and operand "
+                       "position with an override before, inside and after it, every override path compared with the substituted "
+                       "program; distinct = distinct (declarations, map) pairs compared with the spec; "
                        "non-trivial = the module lowered and every model/implementation observable was compared")
     if st["lower_rejected"] > st["cases"] // 3 and not getattr(ctx, "replay", None):
         ctx.violation("the generator's programs are mostly rejected by naga (%d of %d): the check would be vacuous" % (st["lower_rejected"], st["cases"]),
@@ -869,8 +1087,21 @@ def load_replay(d):
         decls.append(dd)
     globs = [{"name": "gv" + "abcd"[i], "ty": g["ty"], "init": g["init"]} for i, g in enumerate(cj["globals"])]
     shape = 1 if any(w in src for w in ("if (", "loop", "fn h", "switch")) else 0
+    if "form" in cj:
+        fm = cj["form"]
+        return Case(0, {"kind": "form", "decls": decls, "consts": [], "globals": [], "wg": [], "lets": [], "src": src,
+                        "vmap": [[k, int(b)] for k, b in cj["consts"]], "vclasses": {}, "shape": 1, "form": fm, "vals": fm["vals"],
+                        "subst": open(os.path.join(d, "substituted.wgsl")).read()})
     return Case(0, {"kind": "replay", "decls": decls, "consts": [], "globals": globs, "wg": cj["wg"], "lets": cj["lets"],
                     "src": src, "vmap": [[k, int(b)] for k, b in cj["consts"]], "vclasses": {}, "shape": shape})
+
+
+def form_prog(f, tag, vmap, vals):
+    """a Case program of the form family (lib/ovrforms.py)"""
+    return {"kind": "form", "decls": F.decls_of(f["overrides"]), "consts": [], "globals": [], "wg": [], "lets": [],
+            "src": f["src_of"]("override"), "subst": f["src_of"]("const", vals), "vmap": vmap, "vclasses": {}, "shape": 1,
+            "form": {"name": "%s/%s" % (f["name"], tag), "form": f["form"], "operands": f["operands"], "overrides": f["overrides"]},
+            "vals": vals}
 
 
 def handmade():
